@@ -159,6 +159,7 @@ def extract(src):
         'sdc_allow_no_origin': False, 'sdc_callback_none': True,
         'token_arg_default': 'csrf_token', 'header_arg_default': 'X-CSRF-Token',
         'sdc_order': -20, 'policy_order': 0, 'view_order': 0,
+        'sdc_positional_order_ok': True, 'view_option_plumbing_ok': True,
     }
 
     # ---------------- csrf.py
@@ -355,9 +356,15 @@ def extract(src):
         fn = F.Module(src, 'pyramid/config/security.py').find('SecurityConfiguratorMixin.set_default_csrf_options')
         names = [a.arg for a in fn.args.args]
         dfl = {n: ast.literal_eval(d) for n, d in zip(names[len(names) - len(fn.args.defaults):], fn.args.defaults)}
-        if names != ['self', 'require_csrf', 'token', 'header', 'safe_methods', 'check_origin', 'allow_no_origin',
-                     'callback']:
+        doc_order = ['self', 'require_csrf', 'token', 'header', 'safe_methods', 'check_origin', 'allow_no_origin', 'callback']
+        if sorted(names) != sorted(doc_order) or names[0] != 'self':
             raise ValueError(names)
+        # the documented POSITIONAL order of the public directive (callers may pass the options positionally)
+        v['sdc_positional_order_ok'] = (names == doc_order) and not fn.args.kwonlyargs and not fn.args.vararg \
+            and not getattr(fn.args, 'posonlyargs', [])
+        if not v['sdc_positional_order_ok']:
+            problems.append('set_default_csrf_options: positional order of the parameters is %r, documented %r'
+                            % (names[1:], doc_order[1:]))
         v['sdc_require'] = bool(dfl['require_csrf']) if isinstance(dfl['require_csrf'], bool) else 1 / 0
         v['sdc_token'], v['sdc_header'] = dfl['token'], dfl['header']
         if not isinstance(v['sdc_token'], str) or not isinstance(v['sdc_header'], str):
@@ -372,6 +379,35 @@ def extract(src):
         # (the flow of the arguments into DefaultCSRFOptions and the registration are regenerated: translate_cfg.py)
     except Exception as e:
         problems.append('set_default_csrf_options defaults not recognised: %r' % (e,))
+
+    # ---------------- how the require_csrf view option reaches csrf_view: add_view is wrapped by viewdefaults (class-level
+    # __view_defaults__ merged under the call's keywords; the wrapper itself is shape-pinned), its parameter is never
+    # rebound and is handed on by keyword to the deriver; _derive_view (pinned) puts it into info.options
+    try:
+        vm = F.Module(src, 'pyramid/config/views.py')
+        av = vm.find('ViewsConfiguratorMixin.add_view')
+        ok = [ast.dump(d) for d in av.decorator_list] == [ast.dump(ast.parse(x).body[0].value) for x in ('viewdefaults', 'action_method')]
+        names = [a.arg for a in av.args.args]
+        dfl = dict(zip(names[len(names) - len(av.args.defaults):], av.args.defaults))
+        ok = ok and 'require_csrf' in dfl and isinstance(dfl['require_csrf'], ast.Constant) and dfl['require_csrf'].value is None
+        stores = [n for n in _walk(av, ast.Name) if n.id == 'require_csrf' and isinstance(n.ctx, (ast.Store, ast.Del))]
+        ok = ok and not stores
+        passes = [c for c in _walk(av, ast.Call) if isinstance(c.func, ast.Attribute) and c.func.attr == '_derive_view'
+                  and any(k.arg == 'require_csrf' and isinstance(k.value, ast.Name) and k.value.id == 'require_csrf'
+                          for k in c.keywords)]
+        ok = ok and len(passes) >= 1
+        derive_calls = [c for c in _walk(av, ast.Call) if isinstance(c.func, ast.Attribute) and c.func.attr == '_derive_view']
+        ok = ok and len(passes) == len(derive_calls)
+        for nm in ('add_exception_view', 'add_notfound_view', 'add_forbidden_view'):
+            f2 = vm.find('ViewsConfiguratorMixin.' + nm)
+            ok = ok and [ast.dump(d) for d in f2.decorator_list][:1] == [ast.dump(ast.parse('viewdefaults').body[0].value)]
+        v['view_option_plumbing_ok'] = bool(ok)
+        if not ok:
+            problems.append('config/views.py: add_view is no longer `@viewdefaults @action_method` with require_csrf=None handed '
+                            'unchanged to every _derive_view(..) call')
+    except Exception as e:
+        v['view_option_plumbing_ok'] = False
+        problems.append('config/views.py view-option plumbing not recognised: %r' % (e,))
 
     # ---------------- execution order (`order=`) of the directives' actions relative to add_view's
     try:
